@@ -186,13 +186,14 @@ Theorem enabled_false_silences q c k raw :
 Proof.
   intros H G L S Hl E. rewrite (run_exact q c H G L). unfold spec. rewrite S.
   destruct (existsb _ _); [reflexivity|].
-  unfold unit_outcome.
-  destruct (check_guards _ _ _); try reflexivity.
   assert (Gu : In (c_unit c) units).
   { unfold case_good in G. apply andb_true_iff in G. now apply smem_In. }
-  rewrite (F_enabled_opt _ Gu).
-  unfold spec_res. rewrite (spec_cli_not_target _ _ "enabled" (enabled_not_target (c_cmd c))).
-  unfold opt_lookup. rewrite Hl, E. reflexivity.
+  assert (B : unit_body (doc_opts (c_unit c)) (unit_probes (c_unit c)) (spec_res c (section_of (c_unit c) raw)) (c_fname c) (c_metrics c) = 0).
+  { unfold unit_body. rewrite (F_enabled_opt _ Gu).
+    unfold spec_res. rewrite (spec_cli_not_target _ _ "enabled" (enabled_not_target (c_cmd c))).
+    unfold opt_lookup. rewrite Hl, E. reflexivity. }
+  unfold unit_outcome. destruct (guard_status _ _ (spec_res _ _)); try reflexivity.
+  destruct (guard_status _ _ _); try reflexivity. cbn [count_of]. exact B.
 Qed.
 
 (* ------------------------------------------------------------------ 4. monotonicity *)
@@ -240,36 +241,35 @@ Proof.
   destruct (f x); cbn [List.length]; lia.
 Qed.
 
-(* Two runs of one rule that differ only in limit option [o] (not `enabled`/`ignore`, not guarded away):
+(* Two configurations of one rule that differ only in limit option [o] (not `enabled`/`ignore`):
    the more permissive value never reports more. *)
-Theorem limit_monotone opts gs probes r1 r2 fname ms o z1 z2 up n1 n2 :
+Theorem limit_monotone opts probes r1 r2 fname ms o z1 z2 up :
   (forall o', o' <> o -> r1 o' = r2 o') -> has_opt opts o = true ->
   o <> "enabled" -> o <> "ignore" ->
   as_int (r1 o) (default_of opts o) = Some z1 -> as_int (r2 o) (default_of opts o) = Some z2 ->
   Forall (fun p => mentions p o = false \/ limit_dir p o = Some up) probes ->
   (if up then (z1 <= z2)%Z else (z2 <= z1)%Z) ->
-  unit_outcome opts gs probes false r1 fname ms = Ran n1 ->
-  unit_outcome opts gs probes false r2 fname ms = Ran n2 ->
-  n2 <= n1.
+  unit_body opts probes r2 fname ms <= unit_body opts probes r1 fname ms.
 Proof.
-  intros Hag Ho Ne Ni E1 E2 Hp Hle. unfold unit_outcome.
-  destruct (check_guards gs _ false) eqn:C1; try discriminate.
-  2:{ (* swallow = false never yields StSwallowed *)
-      exfalso. clear -C1. induction gs as [|[[o' c] b] r IH]; cbn [check_guards] in C1; [discriminate|].
-      destruct (as_int _ _); [|discriminate]. destruct (cmp_Z c z b); [discriminate|auto]. }
-  destruct (check_guards gs (fun o0 => as_int (if has_opt opts o0 then r2 o0 else None) (default_of opts o0)) false) eqn:C2; try discriminate.
-  2:{ exfalso. clear -C2. induction gs as [|[[o' c] b] r IH]; cbn [check_guards] in C2; [discriminate|].
-      destruct (as_int _ _); [|discriminate]. destruct (cmp_Z c z b); [discriminate|auto]. }
+  intros Hag Ho Ne Ni E1 E2 Hp Hle. unfold unit_body.
   rewrite <- (Hag "enabled") by congruence. rewrite <- (Hag "ignore") by congruence.
-  destruct (negb _); [intros [= <-] [= <-]; lia|].
-  destruct (existsb _ _); [intros [= <-] [= <-]; lia|].
-  intros [= <-] [= <-]. apply count_mono. intros p Hin.
+  destruct (negb _); [lia|].
+  destruct (existsb _ _); [lia|].
+  apply count_mono. intros p Hin.
   apply (fires_mono opts _ _ ms p o z1 z2 up).
   - intros o' N. now rewrite (Hag o' N).
   - now rewrite Ho.
   - now rewrite Ho.
   - exact (proj1 (Forall_forall _ _) Hp p Hin).
   - exact Hle.
+Qed.
+
+(* a run that is not ended by exit 2 reports exactly what the rule body reports under the effective options *)
+Theorem spec_ran_is_body opts gs probes res top fname ms n :
+  unit_outcome opts gs probes false false false true res top fname ms = Ran n -> n = unit_body opts probes res fname ms.
+Proof.
+  unfold unit_outcome. destruct (guard_status opts gs res); try discriminate.
+  destruct (guard_status opts gs top); try discriminate. now intros [= <-].
 Qed.
 
 (* the limit options of the modelled units have one direction each; `false` = smaller is more permissive *)
@@ -296,34 +296,43 @@ Qed.
 (* ------------------------------------------------------------------ 5. invalid => exit 2 *)
 Lemma check_guards_fail gs ri o c b :
   In (o, c, b) gs -> (match ri o with Some z => cmp_Z c z b = true | None => True end) ->
-  check_guards gs ri false = StExit2.
+  check_guards gs ri <> StOk.
 Proof.
   induction gs as [|[[o' c'] b'] r IH]; intros Hin Hbad; [destruct Hin|].
   cbn [check_guards]. destruct Hin as [E|Hin].
-  - injection E as -> -> ->. destruct (ri o); [now rewrite Hbad|reflexivity].
-  - destruct (ri o'); [|reflexivity]. destruct (cmp_Z c' z b'); [reflexivity|]. now apply IH.
+  - injection E as -> -> ->. destruct (ri o); [rewrite Hbad|]; discriminate.
+  - destruct (ri o'); [|discriminate]. destruct (cmp_Z c' z b'); [discriminate|]. now apply IH.
 Qed.
 
+Definition bad_value (v : option val) (cm : cmp) (b : Z) : Prop :=
+  match v with
+  | Some (VInt z) => cmp_Z cm z b = true     (* outside the documented range *)
+  | Some _ => True                           (* not a number *)
+  | None => False
+  end.
+
+(* the effective value (language block first) or the top-level value a language block shadows is invalid => exit 2 *)
 Theorem invalid_value_exit_2 q c k raw o cm b :
   flags_off q -> case_good c = true -> lang_good c = true ->
   spec_selected c = LDoc k raw ->
   existsb (String.eqb (c_fname c)) (str_list (get "ignore" raw)) = false ->
   In (o, cm, b) (doc_guards (c_unit c)) ->
-  match spec_res c (section_of (c_unit c) raw) o with
-  | Some (VInt z) => cmp_Z cm z b = true     (* outside the documented range *)
-  | Some _ => True                           (* not a number *)
-  | None => False
-  end ->
+  bad_value (spec_res c (section_of (c_unit c) raw) o) cm b
+  \/ bad_value (spec_res_top c (section_of (c_unit c) raw) o) cm b ->
   run q c = Exit2.
 Proof.
   intros H G L S I Hin Hbad. rewrite (run_exact q c H G L). unfold spec. rewrite S, I.
-  unfold unit_outcome.
   assert (Gu : In (c_unit c) units).
   { unfold case_good in G. apply andb_true_iff in G. now apply smem_In. }
-  rewrite (check_guards_fail _ _ o cm b Hin); [reflexivity|].
   pose proof (proj1 (forallb_forall _ _) (F_guard_opts _ Gu) (o, cm, b) Hin) as Ho. cbn [gopt fst] in Ho.
-  rewrite Ho. destruct (spec_res c _ o) as [[| z | | |]|]; cbn [as_int]; try exact I; try exact Hbad; try exact Logic.I.
-  contradiction.
+  assert (K : forall res, bad_value (res o) cm b ->
+              guard_status (doc_opts (c_unit c)) (doc_guards (c_unit c)) res <> StOk).
+  { intros res Hb. unfold guard_status. apply (check_guards_fail _ _ o cm b Hin). cbn beta. rewrite Ho.
+    unfold bad_value in Hb. destruct (res o) as [[| z | | |]|]; cbn [as_int]; try exact Hb; try exact Logic.I. contradiction. }
+  unfold unit_outcome. destruct Hbad as [Hb|Hb].
+  - pose proof (K _ Hb) as N. destruct (guard_status _ _ (spec_res _ _)); [contradiction|reflexivity|reflexivity].
+  - pose proof (K _ Hb) as N. destruct (guard_status _ _ (spec_res _ _)); try reflexivity.
+    destruct (guard_status _ _ (spec_res_top _ _)); [contradiction|reflexivity|reflexivity].
 Qed.
 
 Theorem unparsable_exit_2 q c :
@@ -383,12 +392,15 @@ Proof. vm_compute. reflexivity. Qed.
 Theorem actual_partial c :
   unit_clean (c_unit c) = true -> case_good c = true -> lang_good c = true ->
   p_json (c_proj c) = Absent -> p_pyproject (c_proj c) = Absent -> p_dash (c_proj c) = None -> c_overrides c = [] ->
-  (* every guarded option resolves to a number: the wrong-type defect is excluded *)
+  (* no guarded option is given as a non-number and the top-level values are valid: the wrong-type, retry and
+     shadowed-value defects are excluded *)
   (forall k raw, spec_selected c = LDoc k raw ->
-     typed_guards (doc_opts (c_unit c)) (doc_guards (c_unit c)) (spec_res c (section_of (c_unit c) raw))) ->
+     no_type_error (doc_opts (c_unit c)) (doc_guards (c_unit c)) (spec_res c (section_of (c_unit c) raw))) ->
+  (forall k raw, spec_selected c = LDoc k raw ->
+     guard_status (doc_opts (c_unit c)) (doc_guards (c_unit c)) (spec_res_top c (section_of (c_unit c) raw)) = StOk) ->
   run config_actual c = spec c.
 Proof.
-  intros U G L J P D O T.
+  intros U G L J P D O T V.
   unfold unit_clean in U. rewrite !andb_true_iff, !negb_true_iff in U. destruct U as [[[U1 U2] U3] U4].
   apply run_confined; [|exact G|exact L].
   constructor; try assumption; try (right; assumption).
